@@ -1176,6 +1176,9 @@ pub proof fn lemma_plan_indices_from_diff(ops: Seq<FileSystemOperation>, o: &Fil
             && (#[trigger] apply_all(dir0, ops@, ops@.len() as int, contents_of(paths_and_contents@))) is Some
             ==> files_match(apply_all(dir0, ops@, ops@.len() as int, contents_of(paths_and_contents@))->Some_0,
                    &(*final(file_system_state))->Some_0, artifact_directory@), //@O C18.O-7_later_compile_leaves_exactly_the_artifacts_if_nothing_else_edited_the_directory
+        // the same three facts as ONE predicate: what the session lemma below is stated over
+        *final(file_system_state) is Some
+            && planned(*old(file_system_state), paths_and_contents@, artifact_directory@, ops@, (*final(file_system_state))->Some_0), //@O C18.O-8_planner_contract_as_used_by_the_session_lemma
 //@before "*file_system_state ="
     proof {
         let n = paths_and_contents@.len() as int;
@@ -1702,6 +1705,106 @@ pub proof fn lemma_diff_correct(dir0: Dir, ops: Seq<FileSystemOperation>, o: &Fi
                     }
                 }
             }
+        }
+    }
+}
+
+// =====================================================================================
+// Sessions: from the per-call contracts to "for every history of compiles" (C17/C18/C19)
+// =====================================================================================
+/// what get_file_system_operations guarantees about its plan, in terms of the directory
+/// (postcondition C18.O-8 of the real function; O-5/O-6/O-7 folded into one predicate)
+pub open spec fn planned(o: Option<FileSystemState>, arts: Seq<ArtifactPathAndContent>, d: Seq<int>,
+    ops: Seq<FileSystemOperation>, st: FileSystemState) -> bool {
+    &&& st.reflects(arts, arts.len() as int)
+    &&& o is None ==> forall|dir0: Dir| (#[trigger] apply_all(dir0, ops, ops.len() as int, contents_of(arts))) is Some
+            && files_match(apply_all(dir0, ops, ops.len() as int, contents_of(arts))->Some_0, &st, d)
+    &&& o is Some ==> forall|dir0: Dir| files_match(dir0, &o->Some_0, d) && names_disjoint(&o->Some_0, &st)
+            && (#[trigger] apply_all(dir0, ops, ops.len() as int, contents_of(arts))) is Some
+            ==> files_match(apply_all(dir0, ops, ops.len() as int, contents_of(arts))->Some_0, &st, d)
+}
+/// how one call of compile() ended, as its contract (unit compile_driver) distinguishes it
+pub enum Outcome {
+    /// an error before anything was planned (C17: nothing written, remembered state untouched)
+    FailedBeforePlanning,
+    /// apply_file_system_operations returned Err: the directory is in SOME state, and compile
+    /// forgets what it knew about it (C18+C19.O-1)
+    FailedInApply(Dir),
+    /// the plan was applied completely; the planner's state is remembered
+    Succeeded,
+}
+pub struct CompileRec {
+    pub arts: Seq<ArtifactPathAndContent>,
+    pub ops: Seq<FileSystemOperation>,
+    pub st: FileSystemState,
+    pub outcome: Outcome,
+}
+/// the artifact directory (under the transcribed std::fs semantics) and what the compiler
+/// remembers about it
+pub struct World { pub dir: Dir, pub state: Option<FileSystemState> }
+pub open spec fn step(w: World, r: CompileRec) -> World {
+    match r.outcome {
+        Outcome::FailedBeforePlanning => w,
+        Outcome::FailedInApply(dir2) => World { dir: dir2, state: None },
+        Outcome::Succeeded => World {
+            dir: apply_all(w.dir, r.ops, r.ops.len() as int, contents_of(r.arts))->Some_0,
+            state: Some(r.st),
+        },
+    }
+}
+/// the record is what the contracts allow in world w
+pub open spec fn rec_ok(w: World, r: CompileRec, d: Seq<int>) -> bool {
+    r.outcome is FailedBeforePlanning || {
+        &&& planned(w.state, r.arts, d, r.ops, r.st)
+        &&& w.state is Some ==> names_disjoint(&w.state->Some_0, &r.st)
+        // apply returned Ok only if every operation succeeded
+        &&& r.outcome is Succeeded ==> apply_all(w.dir, r.ops, r.ops.len() as int, contents_of(r.arts)) is Some
+    }
+}
+pub open spec fn run(w0: World, recs: Seq<CompileRec>, k: int) -> World
+    decreases k
+{
+    if k <= 0 { w0 } else { step(run(w0, recs, k - 1), recs[k - 1]) }
+}
+pub open spec fn all_ok(w0: World, recs: Seq<CompileRec>, k: int, d: Seq<int>) -> bool {
+    forall|i: int| 0 <= i < k ==> rec_ok(run(w0, recs, i), #[trigger] recs[i], d)
+}
+/// the session invariant: whenever the compiler remembers a state, the directory holds
+/// exactly the files of that state
+pub open spec fn world_inv(w: World, d: Seq<int>) -> bool {
+    w.state is Some ==> files_match(w.dir, &w.state->Some_0, d)
+}
+/// C17 + C18 + C19 for every history: a session starts knowing nothing about the directory
+/// (whatever it holds); after ANY sequence of compiles - failing before planning, failing
+/// half-way through the writes, or succeeding - the invariant holds, and after every
+/// successful compile the directory holds exactly the artifacts of that compile.
+pub proof fn lemma_session(w0: World, recs: Seq<CompileRec>, k: int, d: Seq<int>)
+    requires w0.state is None, 0 <= k <= recs.len(), all_ok(w0, recs, k, d),
+    ensures
+        world_inv(run(w0, recs, k), d),
+        forall|i: int| 0 <= i < k && (#[trigger] recs[i]).outcome is Succeeded ==>
+            files_match(run(w0, recs, i + 1).dir, &recs[i].st, d)
+            && recs[i].st.reflects(recs[i].arts, recs[i].arts.len() as int)
+            && run(w0, recs, i + 1).state == Some(recs[i].st),
+    decreases k
+{
+    if k > 0 {
+        assert(all_ok(w0, recs, k - 1, d));
+        lemma_session(w0, recs, k - 1, d);
+        let w = run(w0, recs, k - 1);
+        let r = recs[k - 1];
+        assert(rec_ok(w, r, d));
+        assert(run(w0, recs, k) == step(w, r));
+        if r.outcome is Succeeded {
+            let h = contents_of(r.arts);
+            let a = apply_all(w.dir, r.ops, r.ops.len() as int, h);
+            assert(files_match(a->Some_0, &r.st, d));
+        }
+        assert forall|i: int| 0 <= i < k && (#[trigger] recs[i]).outcome is Succeeded implies
+            files_match(run(w0, recs, i + 1).dir, &recs[i].st, d)
+            && recs[i].st.reflects(recs[i].arts, recs[i].arts.len() as int)
+            && run(w0, recs, i + 1).state == Some(recs[i].st) by {
+            if i == k - 1 { } 
         }
     }
 }
